@@ -102,7 +102,7 @@ module.exports = {
   rule: 'programs = 12 function kinds (declaration, expression, arrow, method, getter, constructor, static method, generator, nested inner/outer, IIFE, callback) x directive prologues of length 0-3 drawn from {\'use strict\', "use strict", \'other directive\', a 13-char string} in any order x file-level prologues of length 0-2 x body with/without instrumented code x hashbang / leading comments / module. Monitors: (structural) the directive prologue of the program and of every function body as acorn parses it must be identical in input and output; (dynamic) strictness probes (assignment to an undeclared name, this of a plain call, arguments aliasing, typeof this) are executed in input and output and compared event by event. distinct_nontrivial = distinct programs with >= 1 directive and a modified output.',
   assumptions: ['legacy-octal acceptance is not probed (it would make the strict variant of the input invalid)', "'use asm' is not generated"],
   plan (ctx) {
-    const n = ctx.tier === 'thorough' ? 12000 : 1500
+    const n = ctx.tier === 'thorough' ? 40000 : 6000
     const shards = []
     for (let k = 0; k < n / 150; k++) shards.push({ count: 150, stream: k })
     return shards
